@@ -230,7 +230,7 @@ func checkC15(c *Ctx, r *Report) {
 // for empty containers, for which Get returns ""; a Has+Get pair therefore turns such keys into the empty string
 // instead of falling back to the default or failing.
 func (c *Ctx) checkAttrLookup(r *Report) {
-	inj := c.logFunc("injectAttribute")
+	inj := c.names().AttrInjector
 	if inj == nil {
 		r.Undecided("C15.attr-lookup:injectAttribute", "", "attribute injector not found")
 		return
@@ -308,7 +308,7 @@ func (c *Ctx) checkAttrLookup(r *Report) {
 // checkSubst: a value of the form ${key} is replaced by the top-level property `key` (camel-cased) and a missing
 // property is an error.
 func (c *Ctx) checkSubst(r *Report) {
-	inj := c.logFunc("injectAttribute")
+	inj := c.names().AttrInjector
 	if inj == nil {
 		return
 	}
@@ -322,7 +322,11 @@ func (c *Ctx) checkSubst(r *Report) {
 			return
 		}
 		kp := c.prov(lk.Index, fr).String()
-		if !strings.Contains(kp, "toCamelKey(slice:slice(") {
+		camel := "<camel>"
+		if cf := c.names().CamelFn; cf != nil {
+			camel = qualName(cf)
+		}
+		if !strings.Contains(kp, camel+"(slice:slice(") {
 			return
 		}
 		found = true
@@ -909,7 +913,7 @@ func (c *Ctx) checkConfigPanics(r *Report, cfg map[*ssa.Function]bool) {
 		r.OK("C15.no-panic:config-path", "no explicit panic or os.Exit in the %d functions of the configuration path", len(cfg))
 	}
 	// reflect setters are dominated by the matching kind test
-	inj := c.logFunc("injectAttribute")
+	inj := c.names().AttrInjector
 	if inj != nil {
 		bad := 0
 		cnt := 0
@@ -1051,7 +1055,7 @@ func (c *Ctx) checkChanSize(r *Report) {
 // ---- storage keys
 
 func (c *Ctx) checkStorageKeys(r *Report, cfg map[*ssa.Function]bool) {
-	toCamel := c.logFunc("toCamelKey")
+	toCamel := c.names().CamelFn
 	n, bad := 0, 0
 	for _, f := range sortedFuncs(cfg) {
 		if f.Pkg != c.LogS {
